@@ -126,6 +126,30 @@ func checkC16(r *Run) {
 	}
 	// all byte strings of length 0..3 over 256 values
 	enumStrings(r, all256(), 0, 3, nil, func(c *enumCtx, s []byte) { run(c, s, false) })
+	// every lower-case name of the lengths of the short table names (4: from cseq, 5: route, 6: -, 7: call-id contact
+	// expires) over a-z and '-': a lookup that compares a hash / checksum / prefix instead of the name itself collides
+	// somewhere in a space this size (27^7 = 1.0e10 names)
+	lean := func(c *enumCtx, s []byte) {
+		c.st.Evals++
+		c.st.Transitions++
+		want, ok := hdrTable[string(s)]
+		if !ok {
+			want = sipsp.HdrOther
+		}
+		mw, mok := sipsp.MOther, false // all-lower-case names are never methods
+		if sipsp.GetHdrType(s) != want || sipsp.GetMethodNo(s) != mw || mok {
+			run(c, append([]byte(nil), s...), false)
+		}
+	}
+	enumStrings(r, []byte("abcdefghijklmnopqrstuvwxyz-"), 4, 7, nil, lean)
+	if !r.quick() {
+		// thorough: length 4 over all 256 byte values, length 5 over the letters of the short table names
+		// (CSeq, Via, To, From, Route, BYE, ACK, INFO, ...) in both cases, through the parser as well
+		enumStrings(r, all256(), 4, 4, nil, func(c *enumCtx, s []byte) { run(c, s, false) })
+		enumStrings(r, []byte("cseqviatofrmuCSEQVIATOFRMU"), 5, 5, nil, func(c *enumCtx, s []byte) { run(c, s, true) })
+		enumStrings(r, []byte("routeackbyinfROUTEACKBYINF-"), 5, 5, nil, func(c *enumCtx, s []byte) { run(c, s, false) })
+		r.Bounds["thorough_extra"] = "len 4 over all 256 byte values; len 5 over two 26/27-letter alphabets"
+	}
 	// all 2^letters case variants of every table name, one-edit neighbours
 	var names [][]byte
 	for n := range hdrTable {
